@@ -41,7 +41,7 @@ def _gen(arg):
         covers.append((name, str(s.check())))
     return dict(key=key, case=r.case, status=r.status, detail=r.detail, obligations=obs, notes=r.notes,
                 assumptions=r.assumptions, used=r.used_contracts, paths=r.paths, dead=r.dead, covers=covers,
-                src=r.src, gen_time=round(r.gen_time, 3), wall=round(time.time() - t0, 3), tier=c.tier, mutant=mutant)
+                src=r.src, live=r.live, gen_time=round(r.gen_time, 3), wall=round(time.time() - t0, 3), tier=c.tier, mutant=mutant)
 
 
 def _solve(arg):
@@ -105,16 +105,35 @@ def run(keys, z3_ms=10000, use_cvc5=True, procs=None, mutant=None):
     return run_jobs(jobs, z3_ms, use_cvc5, procs)
 
 
+def _solve_retry(txt, z3_ms):
+    out = _solve((txt, z3_ms, True))
+    if out["status"] == "unknown":
+        out = _solve((txt, z3_ms * 3, True))
+    return out
+
+
 def _mutant_job(arg):
     """One mutant of one function-case: generate, then solve obligation by obligation and stop at the first one that is
-    not proved (that is all a mutant has to show)."""
+    not proved (that is all a mutant has to show).  For the baseline (m is None) returns (dead, live statement ranges)."""
     key, ci, m, z3_ms = arg
     r = _gen((key, ci, m))
+    if m is None:
+        dead = r["status"] != "ok"
+        if not dead:
+            for o in r["obligations"]:
+                if o["status"] is None:
+                    if _solve_retry(o["smt2"], z3_ms)["status"] != "proved":
+                        dead = True
+                        break
+                elif o["status"] != "proved":
+                    dead = True
+                    break
+        return dead, r.get("live", [])
     if r["status"] != "ok":
         return True
     for o in r["obligations"]:
         if o["status"] is None:
-            out = _solve((o["smt2"], z3_ms, True))
+            out = _solve_retry(o["smt2"], z3_ms)
             if out["status"] != "proved":
                 return True
         elif o["status"] != "proved":
@@ -123,33 +142,56 @@ def _mutant_job(arg):
 
 
 def mutant_sweep(keys, z3_ms=5000, procs=None, max_per_fn=None):
-    """Every built-in mutant of every verified function must fail at least one obligation (or be unsupported)."""
+    """Every built-in mutant of every verified function must fail at least one obligation (or be unsupported).
+    Sites in statements that no feasible path of the unmutated function executes under the contract's preconditions
+    (e.g. tracing code under `not Metrics.collecting`) are out of the contract's scope and are counted separately."""
     from . import mutants
-    jobs, desc = [], {}
+    ctx = mp.get_context("fork")
+    todo = []
     for key in keys:
         c = REGISTRY[key]
         if c.trusted or c.inline or not c.verify:
             continue
         try:
-            node = source.locate(c.file, c.qual)
+            source.locate(c.file, c.qual)
         except Exception:
             continue
-        n = len(mutants.sites(node))
+        todo.append(key)
+    base = [(key, ci) for key in todo for ci in range(len(REGISTRY[key].cases))]
+    jobs, desc = [], {}
+    with ctx.Pool(min(procs or 16, max(1, len(base)))) as pool:
+        bres = pool.map(_mutant_job, [(k, ci, None, z3_ms) for k, ci in base], chunksize=1)
+    invalid = set(kc for kc, (dead, _l) in zip(base, bres) if dead)
+    live = {kc: lv for kc, (_d, lv) in zip(base, bres)}
+    out_of_scope = 0
+    for key in todo:
+        c = REGISTRY[key]
+        node = source.locate(c.file, c.qual)
+        ss = mutants.sites(node)
+        n = len(ss)
         if max_per_fn:
             n = min(n, max_per_fn)
         for m in range(n):
-            desc[(key, m)] = mutants.describe(node, m)
+            d = mutants.describe(node, m)
+            line = int(d.split("@line")[1])
+            used = False
             for ci in range(len(c.cases)):
-                jobs.append((key, ci, m))
-    ctx = mp.get_context("fork")
-    # baseline: the unmutated function-case must pass under the sweep's own (smaller) solver budget, otherwise "killed" means nothing
-    base = sorted(set((j[0], j[1]) for j in jobs))
-    with ctx.Pool(min(procs or 16, max(1, len(jobs)))) as pool:
-        bres = pool.map(_mutant_job, [(k, ci, None, z3_ms) for k, ci in base], chunksize=1)
-        invalid = set(kc for kc, dead in zip(base, bres) if dead)
-        jobs = [j for j in jobs if (j[0], j[1]) not in invalid]
-        res = pool.map(_mutant_job, [j + (z3_ms,) for j in jobs], chunksize=1)
+                if (key, ci) in invalid:
+                    continue
+                if any(a <= line <= b for a, b in live.get((key, ci), [])):
+                    jobs.append((key, ci, m))
+                    used = True
+            if used:
+                desc[(key, m)] = d
+            elif not all((key, ci) in invalid for ci in range(len(c.cases))):
+                out_of_scope += 1
+    if jobs:
+        with ctx.Pool(min(procs or 16, max(1, len(jobs)))) as pool:
+            res = pool.map(_mutant_job, [j + (z3_ms,) for j in jobs], chunksize=1)
+    else:
+        res = []
     mutant_sweep.invalid = sorted("%s#%d" % (k[1], ci) for k, ci in invalid)
+    mutant_sweep.out_of_scope = out_of_scope
     killed = {}
     for j, dead in zip(jobs, res):
         k = (j[0], j[2])
@@ -206,7 +248,7 @@ if __name__ == "__main__":
         n, surv = mutant_sweep(keys, z3_ms=a.ms)
         if mutant_sweep.invalid:
             print("baseline does not pass under the sweep budget (mutants not counted):", mutant_sweep.invalid)
-        print("mutants: %d, survivors: %d" % (n, len(surv)))
+        print("mutants: %d, survivors: %d, sites in statements unreachable under the contract (not counted): %d" % (n, len(surv), mutant_sweep.out_of_scope))
         for q, d in surv:
             print("   SURVIVOR", q, d)
         print("wall %.1fs" % (time.time() - t0))
